@@ -228,6 +228,8 @@ impl Screen {
 
         (self.lines, self.columns) = (lines, columns);
         self.set_margins(None, None);
+        self.ensure_hbounds();
+        self.ensure_vbounds(None);
     }
 
     // Ensure the cursor is within horizontal screen bounds."""
